@@ -635,10 +635,16 @@ def eng2(ctx: Ctx) -> None:
     push = [s_ for s_ in rest if isinstance(s_, ast.For) and ivar in norm(s_.iter)]
     if len(push) == 1:
         calls = [c for c in ast.walk(push[0]) if isinstance(c, ast.Call) and isinstance(c.func, ast.Attribute) and norm(c.func.value) == "to_unwrap" and c.func.attr in ("append", "appendleft")]
-        if len(calls) == 1 and isinstance(calls[0].args[0], ast.Tuple) and len(calls[0].args[0].elts) == 3:
+        roles = _queue_roles(mod, fn, calls[0].args[0]) if len(calls) == 1 and calls[0].args else None
+        if roles is not None:
             rev = norm(push[0].iter) == f"reversed({ivar})"
             left = calls[0].func.attr == "appendleft"
-            dep = norm(calls[0].args[0].elts[2])
+            dep = norm(roles["depth"])
+            itv = norm(push[0].target)
+            org = norm(roles["origin"]) if roles["origin"] is not None else "None"
+            if org != f"better_origin({itv}, None)":
+                ctx.R.fail("ENG-2", mod, calls[0], f"an item a hook redirected the trace to is queued with origin `{org}` instead of better_origin({itv}, None): a coroutine / generator reached through an "
+                           "elaborate_frame redirect (customize(elaborate=...), greenback, trio from_thread) then yields frames whose origin is not that object", construct="redirect push origin")
             if rev and left and dep == "depth":
                 ctx.R.ok("ENG-2", "result items are queued in order at the frame's depth")
             elif rev != left:
@@ -651,6 +657,47 @@ def eng2(ctx: Ctx) -> None:
             ctx.R.undecided("ENG-2", "push loop has an unrecognised body")
     else:
         ctx.R.undecided("ENG-2", "push loop over the result items not found")
+
+
+def _queue_roles(mod: Mod, fn: ast.AST, arg: Optional[ast.AST]) -> Optional[Dict[str, Optional[ast.AST]]]:
+    """the (origin, item, depth) of a record pushed onto the unwrap queue, whatever the record looks like: a 3-tuple whose
+    positions are named by the `a, b, c = to_unwrap.popleft()` unpacking, or a call of a NamedTuple / dataclass of the module
+    (fields by name, defaults filled in).  Roles come from the names: *origin*, *depth*, anything else is the item."""
+    def role(name: str) -> str:
+        return "origin" if "origin" in name else ("depth" if "depth" in name else "item")
+    if arg is None:
+        return None
+    if isinstance(arg, ast.Tuple):
+        if any(isinstance(e, ast.Starred) for e in arg.elts):
+            return None
+        names = None
+        for a_ in ast.walk(fn):
+            if isinstance(a_, ast.Assign) and isinstance(a_.targets[0], ast.Tuple) and isinstance(a_.value, ast.Call) and norm(a_.value.func) in ("to_unwrap.popleft", "to_unwrap.pop") \
+                    and all(isinstance(e, ast.Name) for e in a_.targets[0].elts):
+                names = [e.id for e in a_.targets[0].elts]
+        if names is None or len(names) != len(arg.elts):
+            return None
+        out: Dict[str, Optional[ast.AST]] = {}
+        for nm, e in zip(names, arg.elts):
+            out[role(nm)] = e
+        return out if set(out) == {"origin", "item", "depth"} else None
+    if isinstance(arg, ast.Call) and isinstance(arg.func, ast.Name) and mod.has(arg.func.id) and isinstance(mod.fn(arg.func.id), ast.ClassDef):
+        if any(isinstance(e, ast.Starred) for e in arg.args) or any(k.arg is None for k in arg.keywords):
+            return None
+        cls = mod.fn(arg.func.id)
+        flds = [(s_.target.id, s_.value) for s_ in cls.body if isinstance(s_, ast.AnnAssign) and isinstance(s_.target, ast.Name)]
+        bound: Dict[str, Optional[ast.AST]] = {}
+        for (nm, dflt), e in zip(flds, arg.args):
+            bound[nm] = e
+        for k in arg.keywords:
+            bound[k.arg] = k.value
+        for nm, dflt in flds:
+            bound.setdefault(nm, dflt)
+        out = {}
+        for nm, e in bound.items():
+            out[role(nm)] = e
+        return out if set(out) == {"origin", "item", "depth"} else None
+    return None
 
 
 def nonempty_of(t: ast.AST) -> Optional[str]:
@@ -699,15 +746,11 @@ def eng34(ctx: Ctx) -> None:
                 pass  # same as appendleft
             else:
                 ctx.R.undecided("ENG-3", f"insertion index `{norm(idx) if idx is not None else ''}` of unwrap results not understood")
-        elts = None
-        if isinstance(a, ast.Tuple) and len(a.elts) == 3:
-            elts = a.elts
-        elif isinstance(a, ast.Call) and len(a.args) == 3:
-            elts = a.args  # a NamedTuple constructor
-        if elts is None:
-            ctx.R.undecided("ENG-3", f"push `{norm(c)[:60]}` is not a 3-tuple")
+        roles = _queue_roles(mod, fn, a)
+        if roles is None:
+            ctx.R.undecided("ENG-3", f"push `{norm(c)[:60]}` is not a record whose origin / item / depth can be told apart")
             continue
-        o, it_, d = (norm(x) for x in elts)
+        o, it_, d = (norm(roles[k]) if roles[k] is not None else "None" for k in ("origin", "item", "depth"))
         if d != "depth + 1":
             ctx.R.fail("ENG-3", mod, c, f"an item produced by unwrapping is queued at `{d}` instead of one level below its parent (`depth + 1`): a prune or replacement issued by the frame it "
                        "unwraps to then also removes its following siblings (they no longer look 'outward')", construct=f"unwrap push depth {d}")
